@@ -218,7 +218,7 @@ pub fn run_record(rng: &mut Rng, hint: Hint, mon: &mut Mon, file: &mut Vec<(Vec<
 /// next to each other for the whole-file passes.
 pub fn corpus() -> Vec<Norm> {
     let base = Norm { seqid: b"chr1".to_vec(), source: b"src".to_vec(), ty: b"exon".to_vec(), start: 5, end: 50, score: Some(norm::score_bits(0.5)), strand: 2, phase: Some(1), attrs: Vec::new(), arrays: Vec::new() };
-    let vals: &[&[&str]] = &[&["plain"], &["a\"b"], &["x\"y\""], &["\"", "\"\""], &["back\\slash", "\\"], &["q\"\\\"", "v; w \"z\";"], &["", "two", "three"]];
+    let vals: &[&[&str]] = &[&["plain"], &["a\"b"], &["x\"y\""], &["\"", "\"\""], &["back\\slash", "\\"], &["q\"\\\"", "v; w \"z\";"], &["", "two", "three"], &["plain", "a\"b", "c\\d", "e\\\"f"], &["first", "\\", "\""]];
     let mut v: Vec<Norm> = vals
         .iter()
         .map(|vs| {
